@@ -35,6 +35,8 @@ def run(ctx) -> None:
     ctx.reuse("C20.parallel", c08.id_width)
     # the keys of the component names (built by the trough helper) are the labware's own well IDs: one ID template everywhere
     ctx.reuse("C20.parallel", c08.id_templates)
+    # "is a trough" is the same fact as "has virtual rows" for every constructed labware (also for one virtual row)
+    ctx.reuse("C20.parallel", c08.trough_predicate)
     ctx.reuse("C20.parallel", c04.trough_alias)
     ctx.reuse("C20.composition-init", c05.default_name)
     ctx.reuse("C20.composition-init", c05.trough_names)
